@@ -125,11 +125,15 @@ int main(int argc, char** argv) {
         std::string res = "[";
         std::vector<int> mixed(nv);
         for (int i = 0; i < nv; i++) mixed[i] = rnd.nextInt(4);
-        for (int pref = 0; pref < 5; pref++) {
+        // run 6 and 7: the same system built in two instalments on ONE solver object - variables, domain restrictions and a first part
+        // of the constraints, solve(), then the remaining constraints (no new variable), solve() again; the second answer is judged
+        const size_t split1 = cons.empty() ? 0 : rnd.nextInt((int)cons.size() + 1);
+        for (int pref = 0; pref < 7; pref++) {
             std::ostringstream log;
             CspSolver solver(log, true);
+            const bool instalments = pref >= 5;
             for (const Var& v : vars) {
-                CspSolver::PrefVal pv = (CspSolver::PrefVal)(pref < 4 ? pref : mixed[&v - &vars[0]]);
+                CspSolver::PrefVal pv = (CspSolver::PrefVal)(pref < 4 ? pref : pref == 6 ? (int)((&v - &vars[0]) % 4) : mixed[&v - &vars[0]]);
                 if (v.lo > v.hi) { int id = solver.addVariable(pv, v.hi, v.lo); solver.addMinVal(id, v.lo); solver.addMaxVal(id, v.hi); }
                 else solver.addVariable(pv, v.lo, v.hi);
             }
@@ -139,12 +143,19 @@ int main(int argc, char** argv) {
                 for (int m : vars[i].mins) solver.addMinVal(i, m);
                 for (int m : vars[i].maxs) solver.addMaxVal(i, m);
             }
-            for (const Con& c : cons) {
+            const size_t split = instalments ? (pref == 5 ? split1 : 0) : cons.size();
+            auto addCon = [&](const Con& c) {
                 if (c.op == 0) solver.addIneq(c.v1, CspSolver::LE, c.v2, c.c);
                 else if (c.op == 1) solver.addIneq(c.v1, CspSolver::GE, c.v2, c.c);
                 else solver.addEq(c.v1, c.v2, c.c);
-            }
+            };
+            for (size_t ci = 0; ci < split; ci++) addCon(cons[ci]);
             std::vector<int> values;
+            if (instalments) {
+                solver.solve(values);
+                for (size_t ci = split; ci < cons.size(); ci++) addCon(cons[ci]);
+                values.clear();
+            }
             bool ok = solver.solve(values);
             if (pref) res += ',';
             res += std::string("{\"sat\":") + (ok ? "true" : "false") + ",\"vals\":[";
